@@ -29,14 +29,14 @@ RULE = ('cases: seeded batch_run calls on a self-identifying fixture model: grid
         'construction, for every n of the batch, with 1 and k processes. Offline oracle over the returned records: result count == '
         '|product| x repetitions; each result carries exactly one run uuid, uuids pairwise distinct, collector ids match the request; the '
         'multiset of parameter combinations == product x repetitions; each run recorded exactly timesteps 0..min(completion, limit)-1; '
-        'product order for one process; the injected fault (classes derived from Exception, KeyError, IndexError, AttributeError, StopIteration) reaches the caller - itself or as the cause of what is raised. Non-trivial batch: >=2 processes, '
+        'product order for one process; the injected fault (classes derived from Exception, KeyError, IndexError, AttributeError, StopIteration, and the ModelCompleteError of the library raised inside a run) reaches the caller - itself or as the cause of what is raised. Non-trivial batch: >=2 processes, '
         '>=4 executions and either a completion order different from submission order or a fault; distinct by the batch signature.')
 ASSUMPTIONS = ['a batch_run call that hangs in Pool.terminate() after a failed execution is the known finding F7; any other hang is inconclusive',
                'fault position = n-th model construction (global ordinal claimed through O_EXCL files), which equals the list position for one '
                'process and approximates it for several', 'a hang outside that mechanism is reported as inconclusive by the watchdog, not as a violation']
-FLOORS = {'quick': {'batches': 100, 'executions_checked': 310, 'records_checked': 1200, 'fault_batches': 30, 'faults_propagated': 30,
+FLOORS = {'quick': {'fault_exc_InjectedModelComplete': 5, 'batches': 100, 'executions_checked': 310, 'records_checked': 1200, 'fault_batches': 30, 'faults_propagated': 30,
                     'multi_process_batches': 50, 'reordered_batches': 5, 'serial_order_checks': 10, 'limit_below_completion': 15,
-                    'limit_above_completion': 15, 'multi_collector_batches': 20, 'no_collector_batches': 8, 'big_batches_many_runs': 2, 'big_batches_long_runs': 2, 'big_batches_many_repetitions': 2, 'fault_exc_InjectedKeyError': 10, 'collectors_at_completer_priority': 40, 'parameter_list_with_history': 15, 'procs_1': 20, 'procs_2_4': 20, 'procs_5_8': 8, 'procs_9_16': 8},
+                    'limit_above_completion': 15, 'multi_collector_batches': 20, 'no_collector_batches': 8, 'big_batches_many_runs': 1, 'big_batches_long_runs': 1, 'big_batches_many_repetitions': 1, 'fault_exc_InjectedKeyError': 10, 'collectors_at_completer_priority': 33, 'parameter_list_with_history': 11, 'procs_1': 20, 'procs_2_4': 20, 'procs_5_8': 8, 'procs_9_16': 8},
           'thorough': {'batches': 3000, 'fault_batches': 1000, 'reordered_batches': 200, 'procs_9_16': 200}}
 EXHAUSTIVE = {}
 
@@ -109,7 +109,7 @@ def gen_spec(rng, sid, fault_ordinal=None, base=None):
             kind = 'ctor'
         spec['fault'] = {'kind': kind, 'ordinal': fault_ordinal, 'tag': f'fault-{sid}-{fault_ordinal}',
                          'exc': rng.choice(['InjectedFault', 'InjectedFault', 'InjectedKeyError', 'InjectedLookupError', 'InjectedAttributeError',
-                                            'InjectedStop']),
+                                            'InjectedStop', 'InjectedModelComplete']),
                          't': rng.randint(0, max(0, last)) if kind == 'step' else None}
     return spec
 
